@@ -78,7 +78,7 @@ def run_session(tag, cfg, seed, ops_filter=None, redeliver=True, setup_only=Fals
             return s
         mc.switch_codec(proto.CODECS[cc["up"]])
         if cc["down"]:
-            mc.option(cc["down"])
+            mc.option(cc["down"].encode() if isinstance(cc["down"], str) else cc["down"])     # str after a JSON round trip (replay)
         if cc["lazy"]:
             mc.option(b"l")
         mc.set_frag(cc["frag"])
@@ -96,7 +96,7 @@ def run_session(tag, cfg, seed, ops_filter=None, redeliver=True, setup_only=Fals
     if setup_only:
         s.ok = True
         return s
-    ops = ["ping"] * 6 + ["up"] * 3 + ["down"] * 5 + ["burst", "idle", "id0", "aux", "hs", "badip", "downsoon", "upsmall", "rawop"]
+    ops = ["ping"] * 6 + ["up"] * 3 + ["down"] * 5 + ["burst", "idle", "id0", "aux", "hs", "badip", "downsoon", "upsmall", "rawop", "refrag", "refrag"]
     if redeliver:
         ops += ["dup"] * 3
     if ops_filter:
@@ -198,6 +198,26 @@ def do_op(s, mc, op, rng):
             mc.ask(proto.msg_version(mc.domain, mc.new_cmc(), rng.choice([0x00000501, 0x00000502 ^ 0x100])), timeout_us=300000)
         else:
             mc.ask(proto.msg_setfrag(mc.domain, mc.userid, rng.choice([0, 1]), mc.new_cmc()), timeout_us=300000)
+    elif op == "refrag":
+        # the fragment size is changed while a multi-fragment packet is in flight and its current fragment is
+        # still unacknowledged; the server then has to re-send under the *new* limit
+        f = mk_frame(s, mc, "down", rng, size=rng.choice([600, 1000, 1134]))
+        s.offered_down.append(f)
+        k.offer_tun("srv", f, s.ident)
+        stale = (mc.dn_seq, mc.dn_frag)
+        mc.ping(wait_us=30000)                       # fetches the first fragment (or leaves a query waiting for it)
+        if rng.random() < 0.5:
+            mc.ping(wait_us=30000)                   # ... and acknowledges it, fetching the second
+            stale = (mc.dn_seq, (mc.dn_frag - 1) & 15)
+        cap = down_capacity(mc.qtype, 4096)
+        newf = rng.choice([2, 5, 17, 40, 80, 150, 300, 700])
+        mc.set_frag(min(newf, cap))
+        for _ in range(rng.randint(1, 3)):
+            # poll without acknowledging the fragment in flight
+            mc.query(proto.msg_ping(mc.domain, mc.userid, stale[0], stale[1], mc.new_cmc()))
+            k.run(k.now + rng.choice([5000, 30000]))
+            mc.drain()
+        mc.pump(rng.choice([300000, 1000000]), 40000)
     elif op == "rawop":
         if mc.cc.get("raw"):
             w = rng.randrange(3)
